@@ -17,6 +17,24 @@ def _uncovered(rows):
     return [(r[0], r[1]) for r in rows if r[3] != "index" and not (r[5] == "true" and r[6] == "true")]
 
 
+def roundtrip_rows(ctx, match, n_quick=2, n_thorough=12):
+    """the genesis suite's export/import round trip for another property's check: only the `genesis_roundtrip` verdicts whose
+    detail contains `match` (e.g. 'module=da prefix=PublishedData') are kept; returns the corr() result or None"""
+    rows = _table()
+    os.makedirs(os.path.join(fw.WORK, "c19"), exist_ok=True)
+    tpath = os.path.join(fw.WORK, "c19", "table-%s-%d.tsv" % (ctx.prop, os.getpid()))
+    open(tpath, "w").write("\n".join("\t".join(r) for r in rows) + "\n")
+    res = fw.corr(ctx, "genesis", n_thorough if ctx.thorough() else n_quick, extra_args=["-replay", "table=" + tpath], driver_suite=False)
+    try:
+        os.remove(tpath)
+    except OSError:
+        pass
+    if res is None:
+        return None
+    res["oracle_fails"] = [f for f in res["oracle_fails"] if f["check"] == "genesis_roundtrip" and match in f["detail"]]
+    return res
+
+
 def run(ctx):
     if not ctx.translate():
         return
